@@ -126,7 +126,7 @@ def _consistent(live):
 def %(name)s(rest: List[Tuple[int, int]]) -> bool:
     """
     pre: len(rest) <= MAXLEN
-    pre: all(0 <= a[0] <= 12 and 0 <= a[1] <= 3 for a in rest)
+    pre: all(0 <= a[0] <= 13 and 0 <= a[1] <= 3 for a in rest)
     post: __return__ == True
     """
     _PATHS[0] += 1
@@ -160,6 +160,11 @@ def %(name)s(rest: List[Tuple[int, int]]) -> bool:
                 live.append(R(t, False, False, False, [], retain_on))
             except RuntimeError:
                 ok = ok and (want and grad_on)
+        elif op == 13:           # a leaf that was *computed* (from tensors that do not require grad) and flagged afterwards
+            base = synapgrad.Tensor(np.ones((2,), dtype=np.float32) * (len(live) + 2))
+            t = base * 2.0
+            t.requires_grad = True
+            live.append(R(t, True, False, True, [], retain_on))
         elif op == 12:           # float leaf obtained from integer data through dtype=: may require grad
             want = bool(a %% 2)
             t = synapgrad.Tensor(np.ones((2,), dtype=np.int32) * (len(live) + 2), dtype=np.float32, requires_grad=want)
@@ -250,7 +255,7 @@ def %(name)s(rest: List[Tuple[int, int]]) -> bool:
 def %(name)s_twin(rest: List[Tuple[int, int]]) -> bool:
     """
     pre: len(rest) <= MAXLEN
-    pre: all(0 <= a[0] <= 12 and 0 <= a[1] <= 3 for a in rest)
+    pre: all(0 <= a[0] <= 13 and 0 <= a[1] <= 3 for a in rest)
     post: False
     """
     return True
@@ -264,7 +269,7 @@ def partitions(tier):
         for a in ((0, 1) if op == 2 else (0,)):
             parts.append(("h1", (op, a), l1))
     l2 = 2 if tier == "quick" else 3
-    for op in range(13):
+    for op in range(14):
         args = {3: (0, 1), 4: (0, 1, 2, 3), 12: (0, 1), 5: (0, 1), 6: (0, 1, 2, 3), 7: (0, 1, 2, 3), 8: (0, 1), 9: (0, 1), 10: (0,), 11: (0,)}.get(op, (0,))
         for a in args:
             parts.append(("h2", (op, a), l2))
@@ -307,7 +312,7 @@ def main(tier, seed):
         "h1": "mode stack: ops 0 construct no_grad, 1 construct retain_grads, 2 enter a constructed one, 3 with no_grad, "
               "4 with retain_grads, 5 exit, 6 exit by exception, 7 probe; first action fixed per partition + <= %d symbolic" % (3 if tier == "quick" else 4),
         "h2": "flags/backward: ops 0-2 contexts, 3 float leaf, 4 int leaf, 5 unary, 6 binary, 7 set requires_grad, "
-              "8 retain_grad, 9 backward, 10 numpy(), 11 detach, 12 float leaf from int data via dtype=; first action fixed per partition + <= %d symbolic" % (2 if tier == "quick" else 3)})
+              "8 retain_grad, 9 backward, 10 numpy(), 11 detach, 12 float leaf from int data via dtype=, 13 computed leaf flagged afterwards; first action fixed per partition + <= %d symbolic" % (2 if tier == "quick" else 3)})
 
 
 FUNCS = {
